@@ -3,7 +3,6 @@
 // labels made of name characters, and so do the tree built from the tokens and the renamed tree (the analogue, for the extended
 // language, of the plain-ness lemmas of spec/plain.rs).  Needed because the evaluator's keys embed the labels in rendered text.
 // ======================================================================================
-pub open spec fn name_str(s: Seq<char>) -> bool { forall|i: int| 0 <= i < s.len() ==> name_char(#[trigger] s[i]) }
 pub open spec fn lab_ok(t: STree) -> bool decreases t {
     match t {
         STree::Term(SAtom::Wild(p)) => name_str(p),
@@ -46,16 +45,6 @@ pub proof fn lemma_stoks_lab_cons(t: STok, ts: Seq<STok>)
         lemma_stoks_lab_cons(t, ts0);
         assert(w.subrange(0, w.len() - 1) =~= seq![t] + ts0);
         assert(w[w.len() - 1] == ts[ts.len() - 1]);
-    }
-}
-pub proof fn lemma_take_name_str(s: Seq<char>)
-    ensures name_str(take_name(s))
-    decreases s.len()
-{
-    if s.len() > 0 && name_char(s[0]) {
-        lemma_take_name_str(s.drop_first());
-        let w = seq![s[0]] + take_name(s.drop_first());
-        assert forall|i: int| 0 <= i < w.len() implies name_char(#[trigger] w[i]) by { if i > 0 { assert(w[i] == take_name(s.drop_first())[i - 1]); } }
     }
 }
 pub proof fn lemma_hdr_lab(s: Seq<char>, e: bool)
